@@ -202,6 +202,27 @@ def c_load(P):
     P.cover("load." + kind)
 
 
+@contract("C15", "resolve_module_aliases.no_inspection", [LD + "resolve_module_aliases"], floor=2, replay="replay_static_load", shard_bits=2)
+def c_resolve_module_aliases(P):
+    """"...even when alias resolution is asked to load external packages": resolve_module_aliases, driven exactly as in its C06 contract (one arbitrary member,
+    symbolic implicit / external flags, load() by its contract above), reaches no execution site when the loader disallows inspection."""
+    from contracts import C06 as _c06
+    _loader_hooks(P)
+    orig = _c06.mk_loader
+
+    def mk(P_, H):
+        ld, coll = orig(P_, H)
+        ld.fields.update({"allow_inspection": False, "force_inspection": False})
+        return ld, coll
+    _c06.mk_loader = mk
+    try:
+        _c06.c_resolve_module_aliases(P)
+    finally:
+        _c06.mk_loader = orig
+    ev = exec_events(P)
+    P.prove("alias_resolution_reaches_no_execution_site", not ev, events=str(ev[:3]))
+
+
 @contract("C15", "inspect_module.system_exit", [LD + "_inspect_module"], floor=1, replay="replay_inspect_exit")
 def c_inspect_module(P):
     loader = mk_loader(P, True, False)
@@ -356,5 +377,5 @@ def bounded_checks(tier, seed):
     d = json.loads(r.stdout.strip().splitlines()[-1])
     return [{"check": "native_scenarios", "tool": "real loads with markers: side-effecting sources, compiled and source-less modules, missing packages (inspection disallowed: marker "
              "files, sys.modules, sys.path, execution sites spied on); modules that raise / exit / rebind sys.path at import time under inspection; sys_path() under every "
-             "exception class", "bound": "4 scenario families, about 60 loads / imports", "cases": d["cases"], "failing": len(d["bad"]), "wall_s": round(time.time() - t0, 1),
+             "exception class", "bound": "4 scenario families, about 60 loads / imports (static load incl. an external module that exists only as byte code behind an alias, external alias resolution on)", "cases": d["cases"], "failing": len(d["bad"]), "wall_s": round(time.time() - t0, 1),
              "violations": d["bad"]}]
